@@ -959,22 +959,24 @@ theorem reverse_spec (b : Buf) (h : b.len ≤ b.info.size) :
 
 /-- a subtable action that keeps the order of the records' clusters (it may change glyph ids in place) -/
 def KeepsOrder (act : Subtable → Array Range → Buf → M Buf) (P : Subtable → Prop) : Prop :=
-  ∀ s rf b b', P s → b.len ≤ b.info.size → act s rf b = .ok b' →
-    b'.len ≤ b'.info.size ∧ b'.clusters = b.clusters ∧ b'.vertical = b.vertical ∧ b'.backward = b.backward
+  ∀ s rf b b', P s → b.len ≤ b.info.size → b.haveOutput = false → act s rf b = .ok b' →
+    b'.len ≤ b'.info.size ∧ b'.haveOutput = false ∧ b'.clusters = b.clusters ∧ b'.vertical = b.vertical ∧
+    b'.backward = b.backward
 
 theorem ctl_dir {b b' : Buf} (h : b'.ctl = b.ctl) :
-    b'.vertical = b.vertical ∧ b'.backward = b.backward ∧ b'.len = b.len := by
+    b'.vertical = b.vertical ∧ b'.backward = b.backward ∧ b'.len = b.len ∧ b'.haveOutput = b.haveOutput := by
   simp only [Buf.ctl, Buf.mk.injEq] at h
-  exact ⟨h.2.2.2.2.2.2.2.2.2.2.2.2, h.2.2.2.2.2.2.2.2.2.2.2.1, h.2.2.2.1⟩
+  exact ⟨h.2.2.2.2.2.2.2.2.2.2.2.2, h.2.2.2.2.2.2.2.2.2.2.2.1, h.2.2.2.1, h.2.2.2.2.2.1⟩
 
 theorem clusters_of_records {b b' : Buf} (h : b'.records = b.records.reverse) :
     b'.clusters = b.clusters.reverse := by
   simp [Buf.clusters, h]
 
 theorem bracket_keeps {act : Subtable → Array Range → Buf → M Buf} {P : Subtable → Prop} (ha : KeepsOrder act P)
-    (s : Subtable) (hs : P s) (rf : Array Range) (b b' : Buf) (hb : b.len ≤ b.info.size)
+    (s : Subtable) (hs : P s) (rf : Array Range) (b b' : Buf) (hb : b.len ≤ b.info.size) (ho : b.haveOutput = false)
     (h : applySubtableBracket act s rf b = .ok b') :
-    b'.len ≤ b'.info.size ∧ b'.clusters = b.clusters ∧ b'.vertical = b.vertical ∧ b'.backward = b.backward := by
+    b'.len ≤ b'.info.size ∧ b'.haveOutput = false ∧ b'.clusters = b.clusters ∧ b'.vertical = b.vertical ∧
+    b'.backward = b.backward := by
   unfold applySubtableBracket at h
   by_cases hr : subtableRuns s rf b = true
   · simp only [hr, Bool.not_true, Bool.false_eq_true, if_false] at h
@@ -985,55 +987,56 @@ theorem bracket_keeps {act : Subtable → Array Range → Buf → M Buf} {P : Su
       clear h g1
       obtain ⟨r1, re1, rc1, _, rs1, rr1⟩ := reverse_spec b hb
       obtain rfl : r1 = b1 := Except.ok.inj (re1.symm.trans e1)
-      obtain ⟨d1, d2, d3⟩ := ctl_dir rc1
+      obtain ⟨d1, d2, d3, d4⟩ := ctl_dir rc1
       have hb1 : r1.len ≤ r1.info.size := by omega
-      obtain ⟨k1, k2, k3, k4⟩ := ha s rf r1 b2 hs hb1 e2
+      obtain ⟨k1, k0, k2, k3, k4⟩ := ha s rf r1 b2 hs hb1 (by rw [d4]; exact ho) e2
       obtain ⟨r2, re2, rc2, _, rs2, rr2⟩ := reverse_spec b2 k1
       obtain rfl : r2 = b' := Except.ok.inj (re2.symm.trans g2)
-      obtain ⟨f1, f2, f3⟩ := ctl_dir rc2
-      refine ⟨by omega, ?_, by rw [f1, k3, d1], by rw [f2, k4, d2]⟩
+      obtain ⟨f1, f2, f3, f4⟩ := ctl_dir rc2
+      refine ⟨by omega, by rw [f4]; exact k0, ?_, by rw [f1, k3, d1], by rw [f2, k4, d2]⟩
       rw [clusters_of_records rr2, k2, clusters_of_records rr1, List.reverse_reverse]
     · simp only [hv, Bool.false_eq_true, if_false] at h
       obtain ⟨b1, e1, h⟩ := bind_ok_inv h
       cases e1
       obtain ⟨b2, e2, h⟩ := bind_ok_inv h
       cases h
-      exact ha s rf b b' hs hb e2
+      exact ha s rf b b' hs hb ho e2
   · simp only [hr, Bool.not_false, if_true] at h
     cases h
-    exact ⟨hb, rfl, rfl, rfl⟩
+    exact ⟨hb, ho, rfl, rfl, rfl⟩
 
 theorem foldlM_keeps {act : Subtable → Array Range → Buf → M Buf} {P : Subtable → Prop} (ha : KeepsOrder act P)
     (rf : Array Range) :
-    ∀ (subs : List Subtable) (b b' : Buf), (∀ s ∈ subs, P s) → b.len ≤ b.info.size →
+    ∀ (subs : List Subtable) (b b' : Buf), (∀ s ∈ subs, P s) → b.len ≤ b.info.size → b.haveOutput = false →
       subs.foldlM (fun b s => applySubtableBracket act s rf b) b = .ok b' →
-      b'.len ≤ b'.info.size ∧ b'.clusters = b.clusters ∧ b'.vertical = b.vertical ∧ b'.backward = b.backward := by
+      b'.len ≤ b'.info.size ∧ b'.haveOutput = false ∧ b'.clusters = b.clusters ∧ b'.vertical = b.vertical ∧
+      b'.backward = b.backward := by
   intro subs
   induction subs with
-  | nil => intro b b' _ hb h; cases h; exact ⟨hb, rfl, rfl, rfl⟩
+  | nil => intro b b' _ hb ho h; cases h; exact ⟨hb, ho, rfl, rfl, rfl⟩
   | cons s ss ih =>
-    intro b b' hP hb h
+    intro b b' hP hb ho h
     rw [List.foldlM_cons] at h
     obtain ⟨b1, e1, g⟩ := bind_ok_inv h
-    obtain ⟨k1, k2, k3, k4⟩ := bracket_keeps ha s (hP s (by simp)) rf b b1 hb e1
-    obtain ⟨j1, j2, j3, j4⟩ := ih b1 b' (fun x hx => hP x (by simp [hx])) k1 g
-    exact ⟨j1, by rw [j2, k2], by rw [j3, k3], by rw [j4, k4]⟩
+    obtain ⟨k1, k0, k2, k3, k4⟩ := bracket_keeps ha s (hP s (by simp)) rf b b1 hb ho e1
+    obtain ⟨j1, j0, j2, j3, j4⟩ := ih b1 b' (fun x hx => hP x (by simp [hx])) k1 k0 g
+    exact ⟨j1, j0, by rw [j2, k2], by rw [j3, k3], by rw [j4, k4]⟩
 
 theorem applyChainsWith_keeps {act : Subtable → Array Range → Buf → M Buf} {P : Subtable → Prop}
     (ha : KeepsOrder act P) :
     ∀ (chains : List Chain) (flags : List (Array Range)) (b b' : Buf),
-      (∀ ch ∈ chains, ∀ s ∈ ch.subtables, P s) → b.len ≤ b.info.size →
+      (∀ ch ∈ chains, ∀ s ∈ ch.subtables, P s) → b.len ≤ b.info.size → b.haveOutput = false →
       applyChainsWith act chains flags b = .ok b' →
       b'.len ≤ b'.info.size ∧ b'.clusters = b.clusters := by
   intro chains
   induction chains with
-  | nil => intro flags b b' _ hb h; cases h; exact ⟨hb, rfl⟩
+  | nil => intro flags b b' _ hb _ h; cases h; exact ⟨hb, rfl⟩
   | cons ch chs ih =>
-    intro flags b b' hP hb h
+    intro flags b b' hP hb ho h
     unfold applyChainsWith at h
     obtain ⟨b1, e1, g⟩ := bind_ok_inv h
-    obtain ⟨k1, k2, _, _⟩ := foldlM_keeps ha _ ch.subtables b b1 (hP ch (by simp)) hb e1
-    obtain ⟨j1, j2⟩ := ih flags.tail b1 b' (fun c hc => hP c (by simp [hc])) k1 g
+    obtain ⟨k1, k0, k2, _, _⟩ := foldlM_keeps ha _ ch.subtables b b1 (hP ch (by simp)) hb ho e1
+    obtain ⟨j1, j2⟩ := ih flags.tail b1 b' (fun c hc => hP c (by simp [hc])) k1 k0 g
     exact ⟨j1, by rw [j2, k2]⟩
 
 /-! the non-contextual subtable keeps the order (any range flags) -/
@@ -1100,18 +1103,18 @@ theorem nonContextual_keeps (lk : Lookup) (rf : Array Range) (sf : Nat) (b b' : 
   obtain ⟨r, e, g⟩ := bind_ok_inv h
   cases g
   obtain ⟨a1, a2, a3⟩ := ncLoop_keeps lk rf sf b.len _ r e
-  exact ⟨a1, a2, clusters_eq_of_get (ctl_dir a1).2.2 a2 a3⟩
+  exact ⟨a1, a2, clusters_eq_of_get (ctl_dir a1).2.2.1 a2 a3⟩
 
 def Subtable.isNonContextual (s : Subtable) : Prop := ∃ lk, s.kind = .noncontextual lk
 
 theorem realAct_keeps_nc : KeepsOrder realAct Subtable.isNonContextual := by
-  intro s rf b b' ⟨lk, hk⟩ hb h
+  intro s rf b b' ⟨lk, hk⟩ hb ho h
   unfold realAct at h
   rw [hk] at h
   simp only [applySubtable] at h
   obtain ⟨a1, a2, a3⟩ := nonContextual_keeps lk rf s.featureFlags b b' h
-  obtain ⟨d1, d2, d3⟩ := ctl_dir a1
-  exact ⟨by omega, a3, d1, d2⟩
+  obtain ⟨d1, d2, d3, d4⟩ := ctl_dir a1
+  exact ⟨by omega, by rw [d4]; exact ho, a3, d1, d2⟩
 
 theorem addFeature_mapped (ft : FeatTable) (tag value s e ty en dis n : Nat) (excl : Bool)
     (htag : tag ≠ 0x61616C74)
@@ -1126,6 +1129,243 @@ theorem addFeature_mapped (ft : FeatTable) (tag value s e ty en dis n : Nat) (ex
     has no duplicate tag, so "first row with this tag" = "the row the binary search finds". -/
 theorem featureMappings_sorted :
     (featureMappings.map (·.1)).Pairwise (· < ·) := by decide +kernel
+
+/-! contextual subtables keep the cluster order -/
+
+theorem setGid_cl {a a' : Array G} {i v : Nat} (h : setGid a i v = .ok a') :
+    a'.size = a.size ∧ ∀ j : Nat, (a'[j]?).map G.cl = (a[j]?).map G.cl := by
+  unfold setGid at h
+  obtain ⟨g, hg, h2⟩ := bind_ok_inv h
+  unfold wr at h2
+  split at h2
+  · rename_i hlt
+    cases h2
+    refine ⟨by simp, ?_⟩
+    intro j
+    simp only [Array.getElem?_set]
+    by_cases hj : i = j
+    · subst hj
+      have : a[i]? = some g := by
+        unfold rd at hg; split at hg <;> simp_all [pure, Except.pure]
+      simp [this]
+    · simp [hj]
+  · cases h2
+
+theorem ctxSubst_cl {lks : Nat → Option Lookup} {i p : Nat} {b b' : Buf}
+    (h : ctxSubst lks i p b = .ok (some b')) :
+    b'.info.size = b.info.size ∧ ∀ j : Nat, (b'.info[j]?).map G.cl = (b.info[j]?).map G.cl := by
+  unfold ctxSubst at h
+  simp only [bind, Except.bind, pure, Except.pure] at h
+  split at h
+  · split at h
+    · cases h
+    · split at h
+      · cases h
+      · split at h
+        · split at h
+          · cases h
+          · rename_i info' hs
+            cases h
+            exact setGid_cl hs
+        · cases h; exact ⟨rfl, fun _ => rfl⟩
+  · cases h; exact ⟨rfl, fun _ => rfl⟩
+
+theorem ctxTransition_cl {lks : Nat → Option Lookup} {cs cs' : CS} {e : Entry} {b b' : Buf}
+    (h : ctxTransition lks cs e b = .ok (cs', b')) :
+    b'.info.size = b.info.size ∧ ∀ j : Nat, (b'.info[j]?).map G.cl = (b.info[j]?).map G.cl := by
+  unfold ctxTransition at h
+  simp only [bind, Except.bind, pure, Except.pure] at h
+  split at h
+  · cases h; exact ⟨rfl, fun _ => rfl⟩
+  · split at h
+    · cases h
+    · rename_i r1 hr1
+      split at h
+      · cases h; exact ⟨rfl, fun _ => rfl⟩
+      · rename_i b1
+        have c1 := ctxSubst_cl hr1
+        split at h
+        · cases h
+        · rename_i r2 hr2
+          split at h
+          · cases h; exact c1
+          · rename_i b2
+            have c2 := ctxSubst_cl hr2
+            cases h
+            exact ⟨by rw [c2.1, c1.1], fun j => by rw [c2.2, c1.2]⟩
+
+/-- "same records up to glyph ids, same control fields except the cursor" -/
+def SameShape (b b' : Buf) : Prop :=
+  { b' with idx := 0, maxOps := 0 }.ctl = { b with idx := 0, maxOps := 0 }.ctl ∧ b'.info.size = b.info.size ∧
+    ∀ j : Nat, (b'.info[j]?).map G.cl = (b.info[j]?).map G.cl
+
+theorem SameShape.refl (b : Buf) : SameShape b b := ⟨rfl, rfl, fun _ => rfl⟩
+
+theorem SameShape.trans {a b c : Buf} (h1 : SameShape a b) (h2 : SameShape b c) : SameShape a c :=
+  ⟨h2.1.trans h1.1, h2.2.1.trans h1.2.1, fun j => (h2.2.2 j).trans (h1.2.2 j)⟩
+
+theorem sameShape_of_ctl {b b' : Buf} (hc : b'.ctl = b.ctl) (hs : b'.info.size = b.info.size)
+    (hk : ∀ j : Nat, (b'.info[j]?).map G.cl = (b.info[j]?).map G.cl) : SameShape b b' := by
+  refine ⟨?_, hs, hk⟩
+  simp only [Buf.ctl, Buf.mk.injEq] at hc ⊢
+  simp_all
+
+theorem sameShape_idx (b : Buf) (i : Nat) (m : Int) : SameShape b { b with idx := i, maxOps := m } :=
+  ⟨rfl, rfl, fun _ => rfl⟩
+
+theorem advance_shape {b b2 : Buf} {ca : Bool} (ho : b.haveOutput = false) (h : advance ca b = .ok b2) :
+    SameShape b b2 := by
+  unfold advance at h
+  split at h
+  · rw [nextGlyph_inplace ho] at h; cases h; exact sameShape_idx b _ b.maxOps
+  · split at h
+    · rw [nextGlyph_inplace ho] at h
+      simp only [bind, Except.bind, pure, Except.pure] at h
+      cases h; exact sameShape_idx b _ _
+    · cases h; exact sameShape_idx b b.idx _
+
+theorem ctx_step_shape {m : Machine} {lks : Nat → Option Lookup} {rf : Array Range} {sf : Nat}
+    {b : Buf} {cs : CS} {st : Nat} {lr : Option Nat} {r : Step} (ho : b.haveOutput = false)
+    (h : driveStep m (ctxCtx lks) rf sf b cs st lr = .ok r) :
+    match r with
+    | .done b' => SameShape b b'
+    | .next b' _ _ _ => SameShape b b' := by
+  unfold driveStep at h
+  obtain ⟨⟨skip, lr1⟩, _, h⟩ := bind_ok_inv h
+  simp only [] at h
+  split at h
+  · split at h
+    · cases h; exact SameShape.refl b
+    · obtain ⟨b1, h1, h⟩ := bind_ok_inv h
+      cases h
+      rw [nextGlyph_inplace ho] at h1; cases h1
+      exact sameShape_idx b _ b.maxOps
+  · unfold driveMain at h
+    obtain ⟨cls, _, h⟩ := bind_ok_inv h
+    split at h
+    · cases h; exact SameShape.refl b
+    · obtain ⟨_, _, h⟩ := bind_ok_inv h
+      obtain ⟨⟨cs1, b1⟩, ht, h⟩ := bind_ok_inv h
+      have hctl := ctxTransition_ctl ht
+      have hcl := ctxTransition_cl ht
+      have s1 : SameShape b b1 := sameShape_of_ctl hctl hcl.1 hcl.2
+      simp only [] at h
+      split at h
+      · cases h; exact s1
+      · obtain ⟨b2, h2, h⟩ := bind_ok_inv h
+        cases h
+        have ho1 : b1.haveOutput = false := by rw [(ctl_fields hctl).2.2.2.2.1]; exact ho
+        exact s1.trans (advance_shape ho1 h2)
+
+theorem shape_haveOutput {b b' : Buf} (h : SameShape b b') : b'.haveOutput = b.haveOutput ∧ b'.len = b.len ∧
+    b'.vertical = b.vertical ∧ b'.backward = b.backward := by
+  have := h.1
+  simp only [Buf.ctl, Buf.mk.injEq] at this
+  exact ⟨this.2.2.2.2.2.1, this.2.2.2.1, this.2.2.2.2.2.2.2.2.2.2.2.2, this.2.2.2.2.2.2.2.2.2.2.2.1⟩
+
+theorem ctx_loop_shape {m : Machine} (lks : Nat → Option Lookup) (rf : Array Range) (sf : Nat) :
+    ∀ (n : Nat) (b : Buf) (cs : CS) (st : Nat) (lr : Option Nat) (steps : Nat) (b' : Buf) (k : Nat),
+      mu b ≤ n → b.haveOutput = false → b.idx ≤ b.len →
+      driveLoopO m (ctxCtx lks) rf sf b cs st lr steps = .ok (some (b', k)) → SameShape b b' := by
+  intro n
+  induction n with
+  | zero =>
+    intro b cs st lr steps b' k hmu ho hi h
+    rw [driveLoopO] at h
+    split at h
+    · cases h
+    · rename_i b1 hstep
+      cases h
+      exact ctx_step_shape ho hstep
+    · rename_i b1 cs1 st1 lr1 hstep
+      have := driveStep_inplace (ctx_keepsCtl lks) ho hi hstep
+      omega
+  | succ n ih =>
+    intro b cs st lr steps b' k hmu ho hi h
+    rw [driveLoopO] at h
+    split at h
+    · cases h
+    · rename_i b1 hstep
+      cases h
+      exact ctx_step_shape ho hstep
+    · rename_i b1 cs1 st1 lr1 hstep
+      obtain ⟨ho1, hi1, hmu1, hlex⟩ := driveStep_inplace (ctx_keepsCtl lks) ho hi hstep
+      rw [dif_pos hlex] at h
+      have s1 : SameShape b b1 := ctx_step_shape ho hstep
+      exact s1.trans (ih b1 cs1 st1 lr1 (steps + 1) b' k (by omega) ho1 hi1 h)
+
+theorem ctx_drive_shape {m : Machine} (lks : Nat → Option Lookup) (rf : Array Range) (sf : Nat) (b b' : Buf)
+    (k : Nat) (ho : b.haveOutput = false) (h : drive m (ctxCtx lks) rf sf b = .ok (b', k)) : SameShape b b' := by
+  unfold drive at h
+  simp only [ctxCtx, Bool.not_true, Bool.false_eq_true, if_false] at h
+  obtain ⟨⟨b1, k1⟩, h1, h⟩ := bind_ok_inv h
+  simp only [pure, Except.pure] at h
+  cases h
+  unfold driveLoop at h1
+  split at h1
+  · cases h1
+  · cases h1
+  · rename_i r hr
+    cases h1
+    have s0 : SameShape b { b with idx := 0 } := sameShape_idx b 0 b.maxOps
+    exact s0.trans (ctx_loop_shape lks rf sf _ _ _ _ _ _ _ _ (Nat.le_refl _) ho (Nat.zero_le _) hr)
+
+/-- subtables that only rewrite glyph ids in place: non-contextual and contextual -/
+def Subtable.isInPlaceSubst (s : Subtable) : Prop :=
+  (∃ lk, s.kind = .noncontextual lk) ∨ (∃ m lks, s.kind = .contextual m lks)
+
+theorem realAct_keeps_subst : KeepsOrder realAct Subtable.isInPlaceSubst := by
+  intro s rf b b' hs hb ho h
+  rcases hs with ⟨lk, hk⟩ | ⟨m, lks, hk⟩
+  · exact realAct_keeps_nc s rf b b' ⟨lk, hk⟩ hb ho h
+  · unfold realAct at h
+    rw [hk] at h
+    simp only [applySubtable] at h
+    obtain ⟨⟨b1, k⟩, h1, h2⟩ := bind_ok_inv h
+    cases h2
+    have sh := ctx_drive_shape lks rf s.featureFlags b b1 k ho h1
+    obtain ⟨d0, d1, d2, d3⟩ := shape_haveOutput sh
+    exact ⟨by rw [d1, sh.2.1]; exact hb, by rw [d0]; exact ho, clusters_eq_of_get d1 sh.2.1 sh.2.2, d2, d3⟩
+
+
+theorem mergeClusters_level2 (b : Buf) (s e : Nat) (h : b.level = 2) : mergeClusters b s e = .ok b := by
+  unfold mergeClusters
+  by_cases c : (decide (s ≤ e) && decide (e - s < 2)) = true
+  · simp [c, pure, Except.pure]
+  · simp only [c, Bool.false_eq_true, if_false, mergeClustersImpl, h, beq_self_eq_true, if_true, bind, Except.bind,
+      pure, Except.pure]
+    congr 1
+    cases b; simp_all
+
+theorem bits_of_verb : ∀ v, v < 16 → bit v REARR_MARK_FIRST = false ∧ bit v REARR_MARK_LAST = false ∧
+    v &&& REARR_VERB = v := by decide
+
+/-- the whole transition at cluster level 2 (no cluster merging): records are permuted exactly as Apple's
+    table says. -/
+theorem rearrTransition_level2 (v : Nat) (hv : v < 16) (hv0 : v ≠ 0) (σ : Asg G) (pre post : List G)
+    (b : Buf) (cs : CS) (ns x1 x2 : Nat)
+    (hinfo : b.info = (pre ++ inst σ (verbTable v).1 ++ post).toArray) (hlvl : b.level = 2)
+    (hs : cs.start = pre.length) (he : cs.end_ = pre.length + (inst σ (verbTable v).1).length)
+    (hlen : (inst σ (verbTable v).1).length ≤ MAX_CONTEXT_LENGTH) (hne : 0 < (inst σ (verbTable v).1).length) :
+    rearrTransition cs ⟨ns, v, x1, x2⟩ b =
+      .ok (cs, { b with info := (pre ++ inst σ (verbTable v).2 ++ post).toArray }) := by
+  obtain ⟨b1, b2, b3⟩ := bits_of_verb v hv
+  have hlong := inst_long_enough σ v hv
+  have hcore := rearrange_table σ pre post v hv
+  unfold rearrTransition rearrMarks
+  simp only [b1, b2, Bool.false_eq_true, if_false]
+  have hverb : bit v REARR_VERB = true := by
+    unfold bit; rw [b3]; simp; exact hv0
+  have hlt : cs.start < cs.end_ := by omega
+  simp only [hverb, hlt, decide_true, Bool.and_self, if_true]
+  unfold rearrApply
+  simp only [b3]
+  have hc : (decide (cs.end_ - cs.start ≥ (verbParams v).1 + (verbParams v).2.1) &&
+      decide (cs.end_ - cs.start ≤ MAX_CONTEXT_LENGTH)) = true := by
+    simp; omega
+  simp only [hc, if_true]
+  rw [mergeClusters_level2 b _ _ hlvl, ok_bind, mergeClusters_level2 b _ _ hlvl, ok_bind, hs, he, hinfo, hcore]
+  rfl
 
 end
 end RbModel.Morx
